@@ -402,5 +402,51 @@ def handle : List String → Option String
             (fun t => num t 2) (fun t => num t 3) (fun t => num t 4) (fun t => num t 5)
             (fun t => ((t.getD 1 "0").toInt?).getD 0) (fun _ => 0) (fun _ => 0) (fun _ => 0) (fun _ => 0) (fun _ => 0) [])
       | _, _ => "bad-op")
+  -- srcsm_write_ascii <old records: `;`-separated, cells `,`-separated, `-` = none> <events `;`-separated:
+  --   lon,lat,mag,epoch,depth,id,time text> <catalog id | none> <write_header> <write_empty> <append> <has id column> :
+  --   the records of the file after the call. A float cell is shown as its exact rational (the text of a float is the csv
+  --   writer's layer), ids are bytes iff the id column exists, the time text of an epoch is looked up in the events
+  | ["srcsm_write_ascii", old, evs, cid, wh, we, ap, hasid] => some (
+      let recs? : String → Option (List (List String)) := fun s =>
+        if s = "-" then some [] else some ((s.splitOn ";").map (·.splitOn ","))
+      let ev? : String → Option (Rat × Rat × Rat × Int × Rat × String × String) := fun t =>
+        match t.splitOn "," with
+        | [a, b, c, d, e, f, g] =>
+          match parseRat? a, parseRat? b, parseRat? c, parseInt? d, parseRat? e with
+          | some a, some b, some c, some d, some e => some (a, b, c, d, e, f, g)
+          | _, _, _, _, _ => none
+        | _ => none
+      let b? : String → Option Bool := fun t => if t = "1" then some true else if t = "0" then some false else none
+      match recs? old, (if evs = "-" then some [] else (evs.splitOn ";").mapM ev?),
+            (if cid = "none" then some none else (parseInt? cid).map some), b? wh, b? we, b? ap, b? hasid with
+      | some old, some evs, some cid, some wh, some we, some ap, some hasid =>
+        showM (fun (r : List (List String)) => if r.isEmpty then "-" else ";".intercalate (r.map (",".intercalate ·)))
+          (SrcSM.write_ascii (Row := Rat × Rat × Rat × Int × Rat × String × String) (IdVal := Bool × String) (Cell := String)
+            (fun i _ => if i.1 then .ok (false, i.2) else .error .attributeError)
+            (fun ms => match evs.find? (fun e => e.2.2.2.1 == ms) with
+              | some e => .ok e.2.2.2.2.2.2 | none => .error (.py .other))
+            (fun cat _ => if hasid then .ok (cat.map fun e => (true, e.2.2.2.2.2.1)) else .error (.py .valueError))
+            (fun t => (false, t)) id showRat (fun o => match o with | some i => toString i | none => "") (·.2)
+            (·.1) (·.2.1) (·.2.2.1) (·.2.2.2.1) (·.2.2.2.2.1) old (evs, cid) wh we ap "id")
+      | _, _, _, _, _, _, _ => "bad-op")
+  -- srcsm_catalog_to_dict <__dict__: `key=token` `;`-separated; token `c…` = callable, `t…` = has to_dict, else plain>
+  --   <rows of catalog.tolist(): items `,`-separated, rows `/`-separated; an item `b:…` is bytes> : the result dict in
+  --   order, `key=token` (`T…` = the attribute's own to_dict) or `key=[rows]` (decoded bytes items shown as `s:…`)
+  | ["srcsm_catalog_to_dict", d, rows] => some (
+      let kv? : String → Option (String × String) := fun t =>
+        match t.splitOn "=" with | [k, v] => some (k, v) | _ => none
+      match (if d = "-" then some [] else (d.splitOn ";").mapM kv?),
+            (if rows = "-" then some [] else some ((rows.splitOn "/").map (·.splitOn ","))) with
+      | some d, some rows =>
+        showM (fun (r : List (String × (String ⊕ List (List String)))) =>
+            if r.isEmpty then "-" else ";".intercalate (r.map fun kv => kv.1 ++ "=" ++
+              (match kv.2 with
+               | .inl t => t
+               | .inr rs => "[" ++ "/".intercalate (rs.map (",".intercalate ·)) ++ "]")))
+          (SrcSM.catalog_to_dict (Attr := String) (Arr := List (List String)) (Item := String)
+            (fun t => .ok ("T" ++ t)) id
+            (fun it _ => if PySM.strStartsWith it "b:" then .ok ("s:" ++ PySM.strDrop it 2) else .error .attributeError)
+            (fun t => PySM.strStartsWith t "c") (fun t => PySM.strStartsWith t "t") (d, rows))
+      | _, _ => "bad-op")
   | _ => none
 end Drive.SrcSM
